@@ -100,6 +100,10 @@ class Lane:
     rule: str = ""
     exhaustive: bool = False  # meaningful for enumerate lanes
     max_sample_len: int = 1500
+    # CPU seconds one case may burn before it counts as "the call under test does not terminate" (a busy loop that
+    # never yields to the event loop cannot be seen by the virtual clock). Only for lanes whose property is
+    # termination; CPU time, not wall time, so machine load cannot trip it.
+    cpu_limit: float | None = None
 
 
 def load_prop(pid: str):
@@ -128,6 +132,30 @@ class _Found(Exception):
     pass
 
 
+class _Spinning(BaseException):
+    pass
+
+
+def guarded_run(lane: "Lane", case) -> Verdict:
+    if not lane.cpu_limit:
+        return lane.run_case(case)
+    import signal
+
+    def on_alarm(signum, frame):
+        raise _Spinning()
+
+    old = signal.signal(signal.SIGVTALRM, on_alarm)
+    signal.setitimer(signal.ITIMER_VIRTUAL, lane.cpu_limit)
+    try:
+        return lane.run_case(case)
+    except _Spinning:
+        return viol("did-not-terminate", f"the case burnt {lane.cpu_limit:.0f} s of CPU without finishing (normal cases take "
+                    "milliseconds): the call under test spins without returning")
+    finally:
+        signal.setitimer(signal.ITIMER_VIRTUAL, 0)
+        signal.signal(signal.SIGVTALRM, old)
+
+
 def run_shard(args) -> dict:
     (pid, lane_name, tier, seed, shard, nshards, n, suppress, shrink) = args
     t0 = time.time()
@@ -154,7 +182,7 @@ def run_shard(args) -> dict:
 
         def body(case) -> bool:
             """Returns True when the case is a (non-suppressed) violation."""
-            v = lane.run_case(case)
+            v = guarded_run(lane, case)
             if not isinstance(v, Verdict):
                 raise HarnessError(f"run_case returned {type(v)}")
             res["evaluations"] += 1
@@ -345,7 +373,7 @@ def replay_file(path: str) -> tuple[dict, Verdict, Lane]:
     lane = get_lane(mod, rec["lane"])
     if lane.init:
         lane.init()
-    v = lane.run_case(rec["case"])
+    v = guarded_run(lane, rec["case"])
     return rec, v, lane
 
 
